@@ -158,6 +158,25 @@ def tlc_scenarios(check, n, depth):
 _A = None
 
 
+def share_retry_key():
+    """QuicRetryTokenHandler generates a 2048-bit RSA key per server (0.1-0.5 s of CPU);
+    a process generates one and every server of that process gets it.  Only the
+    cryptography library's key generator is replaced, no aioquic code."""
+    import types
+    import aioquic.quic.retry as retry
+    if getattr(retry.rsa, "_c19", False):
+        return
+    real = retry.rsa.generate_private_key
+    cache = {}
+
+    def generate_private_key(public_exponent, key_size):
+        k = (public_exponent, key_size)
+        if k not in cache:
+            cache[k] = real(public_exponent=public_exponent, key_size=key_size)
+        return cache[k]
+    retry.rsa = types.SimpleNamespace(generate_private_key=generate_private_key, _c19=True)
+
+
 def _work(batch):
     import sys
     from .. import c19_sim as S
@@ -165,6 +184,7 @@ def _work(batch):
     sys.unraisablehook = lambda *a: None      # coroutines of never-finishing waiters are destroyed at exit
     if _A is None:
         _A = S.load_modules()
+        share_retry_key()
     out = []
     for sc in batch:
         try:
@@ -257,14 +277,17 @@ def binding_demo(check, good):
         ls.insert(i + 1, dict(ls[i], n=2))
         return ls, "future-once"
 
-    demo = {}
+    demo, lines, spans = {}, [], []
     for f in (corrupt_read, drop_wdone, stale_route, second_completion):
         ls, expect = variant(f)
-        fails = trace.validate(check, "TraceAsyncio", ls, constants=consts(), name="demo_" + f.__name__, shards=1)
-        got = sorted({c for _, c in fails})
-        demo[f.__name__] = {"expected": expect, "rejected_with": got}
+        spans.append((f.__name__, expect, len(lines), len(lines) + len(ls)))
+        lines += ls
+    fails = trace.validate(check, "TraceAsyncio", lines, constants=consts(), name="binding_demo", shards=1)
+    for name, expect, lo, hi in spans:
+        got = sorted({c for i, c in fails if lo <= i < hi})
+        demo[name] = {"expected": expect, "rejected_with": got}
         if expect not in got:
-            raise MachineryError("binding demonstration %s: TLC did not reject the corrupted trace (%s)" % (f.__name__, got))
+            raise MachineryError("binding demonstration %s: TLC did not reject the corrupted trace (%s)" % (name, got))
     check.cov["binding_demonstrations"] = demo
 
 
@@ -307,21 +330,23 @@ def run(check):
         return replay(check, S, A)
     rnd = random.Random(check.seed)
 
-    # (V) scenarios: start the real-code runs first, model-check meanwhile
-    n_random = 1500 if check.quick else 12000
+    # (V) seeded random scenarios: start the real-code runs first, ask TLC meanwhile
+    n_random = 1500 if check.quick else 6000
     scenarios = [S.make_scenario(rnd, i) for i in range(n_random)]
-    # (R) scenario structures from TLC behaviours
-    derived = tlc_scenarios(check, 120 if check.quick else 1200, 45)
-    for k, sc in enumerate(derived):
-        sc["id"] = n_random + k
-    check.cov["tlc_behaviours_replayed"] = len(derived)
     ctx = multiprocessing.get_context("fork")
-    allsc = scenarios + derived
     procs = 16
-    batches = [b for b in (allsc[i::procs * 6] for i in range(procs * 6)) if b]
+
+    def cut(scs):
+        return [b for b in (scs[i::procs * 6] for i in range(procs * 6)) if b]
     pool = ctx.Pool(procs)
     try:
-        pending = pool.map_async(_work, batches)
+        pending = [pool.map_async(_work, cut(scenarios))]
+        # (R) scenario structures from TLC behaviours
+        derived = tlc_scenarios(check, 120 if check.quick else 600, 45)
+        for k, sc in enumerate(derived):
+            sc["id"] = n_random + k
+        check.cov["tlc_behaviours_replayed"] = len(derived)
+        pending.append(pool.map_async(_work, cut(derived)))
         # (M)
         for name, kw in (M_QUICK if check.quick else M_THOROUGH):
             r = check.run_tlc("Asyncio", model_cfg(**kw), name="Asyncio_M_" + name, workers=8, timeout=3000)
@@ -334,7 +359,7 @@ def run(check):
             check.cov["deviation_DevLateWaiter_counterexample"] = r.violated
             if r.violated != "NoPendingFinal":
                 raise MachineryError("the model of the unfixed late-waiter behaviour should violate NoPendingFinal, got %s" % r.violated)
-        results = [x for b in pending.get(timeout=3000) for x in b]
+        results = [x for p in pending for b in p.get(timeout=3000) for x in b]
     finally:
         pool.terminate()
     results.sort(key=lambda x: x[0]["id"])
@@ -354,8 +379,6 @@ def run(check):
     check.cov["events"] = ops
     check.cov["schedule_totals"] = agg
     check.cov["scenarios"] = {"random": len(scenarios), "from_tlc_behaviours": len(derived)}
-    bad = {owner for owner in ()}
-    failing_runs = set()
     good = next((ls for sc, ls, st, _ in results
                  if any(x["op"] == "read" for x in ls) and any(x["op"] == "term" for x in ls)
                  and any(x["op"] == "conn-created" for x in ls) and len(ls) < 400), None)
